@@ -263,7 +263,7 @@ pub fn check_main(id: &str, tier: &str) -> ! {
          "distinct_nontrivial": distinct.len(),
          "rule": sp.rule,
          "samples": m.samples,
-         "exhaustive": sp.id == "C14" && m.extra.get("groups_truncated_at_ENUM_readings").cloned().unwrap_or(0) == 0 && m.extra.get("groups(program,input,schedule)").cloned().unwrap_or(0) > 0,
+         "exhaustive": sp.id == "C14" && m.extra.get("groups_truncated_at_ENUM_checks").cloned().unwrap_or(0) == 0 && m.extra.get("groups(program,input,schedule)").cloned().unwrap_or(0) > 0,
          "simulated_runs_per_hour": (m.evaluations as f64 / wall.max(0.001) * 3600.0) as u64,
          "seeds": format!("VERIF_SEED={} -> per-case seed mix(VERIF_SEED, check, index), index 0..{}", seed, n_cases),
          "simulated_steps": m.steps,
